@@ -173,6 +173,19 @@ func payload(dir int, ch byte, serial, size int, nilMsg bool) []byte {
 	return b
 }
 
+// plausible reports whether b can be a payload (or sentinel/marker) of direction dir on channel ch.  Messages of 4
+// bytes or more name their serial number, so they are checked completely.  It only serves to end the wait for
+// sentinels early when something has already gone wrong; the verdict comes from the sequence comparison.
+func plausible(dir int, ch byte, b []byte) bool {
+	switch {
+	case len(b) == 0:
+		return true
+	case len(b) < 4:
+		return b[0] < 200 || (len(b) == 1 && (b[0] == sentinelByte || b[0] == afterOverByte))
+	}
+	return bytes.Equal(b, payload(dir, ch, int(b[1])<<8|int(b[2]), len(b), false))
+}
+
 // ---------------------------------------------------------------- a link that can be stalled
 
 // gateConn lets the harness stall the sender's link: when armed, the next Write blocks (and reports that it did) until
@@ -225,24 +238,33 @@ type endpoint struct {
 	mc    *conn.MConnection
 	chans []chanSpec
 
-	mu        sync.Mutex
-	got       map[byte][][]byte
-	expectSen int           // sentinels (one per channel) this endpoint waits for
-	haveSen   map[byte]bool // channels whose sentinel has arrived
-	done      chan struct{} // closed when all expected sentinels have arrived
-	doneOnce  sync.Once
-	errs      []string
-	errCh     chan struct{} // closed on the first onError
-	errOnce   sync.Once
-	mark      map[byte]int  // epilogue: len(got[ch]) when it began
-	afterOver chan struct{} // closed when the message sent behind the oversized one arrives
-	afterOnce sync.Once
-	inEpi     bool
+	mu         sync.Mutex
+	got        map[byte][][]byte
+	expectSen  int           // sentinels (one per channel) this endpoint waits for
+	haveSen    map[byte]bool // channels whose sentinel has arrived
+	done       chan struct{} // closed when all expected sentinels have arrived
+	doneOnce   sync.Once
+	errs       []string
+	errCh      chan struct{} // closed on the first onError
+	errOnce    sync.Once
+	mark       map[byte]int  // epilogue: len(got[ch]) when it began
+	afterOver  chan struct{} // closed when the message sent behind the oversized one arrives
+	afterOnce  sync.Once
+	dir        int           // the direction this endpoint receives
+	bad        chan struct{} // closed when a delivered message cannot be any message of this direction and channel
+	badOnce    sync.Once
+	tooBig     chan struct{} // closed when a message longer than its channel's RecvMessageCapacity is delivered
+	tooBigOnce sync.Once
+	caps       map[byte]int
+	inEpi      bool
 }
 
-func newEndpoint(name string, chans []chanSpec, expectSen int) *endpoint {
-	e := &endpoint{name: name, chans: chans, got: map[byte][][]byte{}, expectSen: expectSen, haveSen: map[byte]bool{},
-		done: make(chan struct{}), errCh: make(chan struct{}), afterOver: make(chan struct{})}
+func newEndpoint(name string, dir int, chans []chanSpec, expectSen int) *endpoint {
+	e := &endpoint{name: name, dir: dir, bad: make(chan struct{}), chans: chans, got: map[byte][][]byte{}, expectSen: expectSen, haveSen: map[byte]bool{},
+		done: make(chan struct{}), errCh: make(chan struct{}), afterOver: make(chan struct{}), tooBig: make(chan struct{}), caps: map[byte]int{}}
+	for _, c := range chans {
+		e.caps[c.ID] = c.RecvCap
+	}
 	if expectSen == 0 {
 		e.doneOnce.Do(func() { close(e.done) })
 	}
@@ -253,6 +275,12 @@ func (e *endpoint) onReceive(ch byte, b []byte) {
 	cp := append([]byte{}, b...) // the slice belongs to the connection
 	e.mu.Lock()
 	e.got[ch] = append(e.got[ch], cp)
+	if c, ok := e.caps[ch]; ok && len(cp) > c {
+		e.tooBigOnce.Do(func() { close(e.tooBig) })
+	}
+	if !plausible(e.dir, ch, cp) {
+		e.badOnce.Do(func() { close(e.bad) }) // no need to wait for sentinels: the sequence check will name it
+	}
 	if e.inEpi {
 		if len(cp) == 1 && cp[0] == afterOverByte {
 			e.afterOnce.Do(func() { close(e.afterOver) })
@@ -405,10 +433,14 @@ type direction struct {
 	smu      sync.Mutex
 	res      *mcResult
 	rmu      *sync.Mutex
-	degraded int32 // a blocking Send timed out (10 s): the rest of the case uses TrySend so that it still ends
+	degraded int32       // a blocking Send timed out (10 s): the rest of the case uses TrySend so that it still ends
+	abort    func() bool // the connection has failed (or the case has run out of time): stop sending
 }
 
 func (d *direction) send(o sendOp) bool {
+	if d.abort != nil && d.abort() {
+		return false // nothing is judged about sends that were never made
+	}
 	d.smu.Lock()
 	serial := d.serial
 	d.serial++
@@ -514,8 +546,8 @@ func runMConn(p *mcPlan, stallAfter time.Duration) (res mcResult) {
 	if len(p.Back) > 0 {
 		backSen = len(p.Chans)
 	}
-	epA := newEndpoint("A", p.Chans, backSen)
-	epB := newEndpoint("B", p.Chans, len(p.Chans))
+	epA := newEndpoint("A", 1, p.Chans, backSen)
+	epB := newEndpoint("B", 0, p.Chans, len(p.Chans))
 	cfg := mcConfig(p)
 	var a, b *conn.MConnection
 	if msg, frame := ev.Try(func() {
@@ -561,6 +593,7 @@ func runMConn(p *mcPlan, stallAfter time.Duration) (res mcResult) {
 		}
 	}
 	abort := func() bool { return errored() || time.Now().After(deadline) }
+	fwd.abort, back.abort = abort, abort
 
 	var wg sync.WaitGroup
 	var senMu sync.Mutex
@@ -649,6 +682,8 @@ func runMConn(p *mcPlan, stallAfter time.Duration) (res mcResult) {
 		case <-e.done:
 		case <-epA.errCh:
 		case <-epB.errCh:
+		case <-epA.bad:
+		case <-epB.bad:
 		case <-timer.C:
 			res.stall = "sentinel"
 		}
@@ -732,8 +767,12 @@ func runMConn(p *mcPlan, stallAfter time.Duration) (res mcResult) {
 		}
 		overMsg = payload(0, over.ID, epi.serial, over.RecvCap+1, false)
 		overAccepted = a.Send(over.ID, overMsg)
-		if overAccepted {
-			a.TrySend(over.ID, []byte{afterOverByte})
+		for overAccepted && !a.TrySend(over.ID, []byte{afterOverByte}) {
+			// the marker behind it: queued as soon as there is room, unless the connection has ended meanwhile
+			if abort() || !a.IsRunning() {
+				break
+			}
+			time.Sleep(50 * time.Microsecond)
 		}
 	}); msg != "" {
 		res.pp = &productPanic{msg, frame}
@@ -746,6 +785,7 @@ func runMConn(p *mcPlan, stallAfter time.Duration) (res mcResult) {
 	definite := ""
 	select {
 	case <-epB.errCh:
+	case <-epB.tooBig:
 	case <-epB.afterOver:
 		definite = "the message sent behind it on the same channel arrived and no error was raised"
 	case <-timer.C:
@@ -870,7 +910,17 @@ func drawPlan(t *rapid.T, maxMsgs int) *mcPlan {
 
 // ---------------------------------------------------------------- the generated check
 
-func stallLimit() time.Duration { return time.Duration(ev.Scale("STALL_S", 60)) * time.Second }
+// stallLimit is how long a case may wait for its completion signal.  Once a double stall has been confirmed in this
+// process (a violation is on record) the repetitions rapid makes while shrinking use a short limit: they can only
+// change which case is shown as the minimal one, not the verdict.
+func stallLimit() time.Duration {
+	if atomic.LoadInt32(&stallConfirmed) != 0 {
+		return 2 * time.Second
+	}
+	return time.Duration(ev.Scale("STALL_S", 60)) * time.Second
+}
+
+var stallConfirmed int32
 
 // settle turns the result of one run into violations / harness failures, applying the double-stall rule.
 func settle(t ev.TB, p *mcPlan, res mcResult, rerun func() mcResult) {
@@ -890,7 +940,9 @@ func settle(t ev.TB, p *mcPlan, res mcResult, rerun func() mcResult) {
 		ev.Class("mconn.stalled-once")
 		res2 := rerun()
 		if res2.stall != "" {
-			ev.Violation(t, "mconn.stall", text, "no completion within %v twice in a row (second time in isolation): %s / %s", stallLimit(), res.stall, res2.stall)
+			lim := stallLimit()
+			atomic.StoreInt32(&stallConfirmed, 1)
+			ev.Violation(t, "mconn.stall", text, "no completion within %v twice in a row (second time in isolation): %s / %s", lim, res.stall, res2.stall)
 			return
 		}
 		t.Fatalf("harness: inconclusive: case stalled once (%s) and completed when repeated in isolation\ncase: %s", res.stall, text)
